@@ -29,3 +29,25 @@ Definition complete_report (c : case) : list N :=
 Definition plan_of (T : tsys) (idxs : list nat) : plan :=
   flat_map (fun i => match nth_error (ts_insts T) i with Some a => [a] | None => [] end) idxs.
 Definition valid_idx (T : tsys) (idxs : list nat) : bool := valid T (plan_of T idxs).
+
+(* "the compiler says the problem is unsolvable": search for a valid plan of T up to length n against a system
+   without any plan (used when a compiler rejects a problem as unsolvable instead of compiling it) *)
+Definition dead_sys (T : tsys) : tsys :=
+  {| ts_prob := {| p_objs := p_objs (ts_prob T); p_ifun := p_ifun (ts_prob T); p_fluents := p_fluents (ts_prob T);
+                   p_actions := []; p_goals := [EBool false]; p_invs := [] |};
+     ts_init := ts_init T; ts_insts := []; ts_traj := [] |}.
+Definition solvable_report (T : tsys) (n : nat) : list N :=
+  report (ts_insts T) (complete_search T (dead_sys T) (fun _ => None) 0 n).
+
+(* coverage measurement: number of valid plans of T of length <= n over its ground instances *)
+Fixpoint count_from (T : tsys) (n : nat) (s : state) (rh : list state) : N :=
+  ((if accept T s rh then 1 else 0) +
+   match n with
+   | O => 0
+   | S m => fold_left (fun acc a => match step T s a with
+                                    | Some t => acc + count_from T m t (t :: rh)
+                                    | None => acc
+                                    end) (ts_insts T) 0
+   end)%N.
+Definition valid_count (T : tsys) (n : nat) : N :=
+  if init_ok T then count_from T n (ts_init T) [ts_init T] else 0%N.
